@@ -23,6 +23,9 @@ import (
 // When opening a redis slave connection, must send the READONLY directive before you can access
 const ReadOnly = "*1\r\n$8\r\nREADONLY\r\n"
 
+// A request redirected with -ASK is only served by the target node when it follows ASKING
+const Asking = "*1\r\n$6\r\nASKING\r\n"
+
 // OnSOpened fires when a new redis server connection has been opened.
 func (ls *listenServer) OnSOpened(s core.SConn) (out []byte, action core.Action) {
 	logging.Debugf("[%ds] conn open, local: %s, remote: %s", s.Fd(), s.LocalAddr(), s.RemoteAddr())
